@@ -206,7 +206,7 @@ def run_special(case, rng, d, counters, cov, viol, sizes):
     fam = case['family']
     limit = rng.choice([1, 25, 150])
     via_tuple = rng.random() < 0.5
-    prog = {'family': fam, 'limit_rows': limit, 'tuple_source': via_tuple} if fam == 'limit_rows' else \
+    prog = {'family': fam, 'limit_rows': limit, 'iterators_given_as': 'iterator' if via_tuple else 'list'} if fam == 'limit_rows' else \
         {'family': fam, 'observer': case['obs']}
     res = []
     for N in sizes:
@@ -230,7 +230,8 @@ def run_special(case, rng, d, counters, cov, viol, sizes):
                 yield row
         if fam == 'limit_rows':
             desc = {'resources': [{'name': 'r0', 'path': 'r0.csv', 'schema': {'fields': fl}}]}
-            src = d.load((desc, iter([g(0)])), limit_rows=limit) if via_tuple else d.load(g(0), limit_rows=limit)
+            # (load does not take a bare generator: the iterators come as a list or as an iterator of iterators)
+            src = d.load((desc, iter([g(0)])), limit_rows=limit) if via_tuple else d.load((desc, [g(0)]), limit_rows=limit)
             steps = [src, d.add_field('z', 'integer', 1), sink]
         else:
             obs = {'dump_to_path': lambda: d.dump_to_path('oc_%d' % N), 'stream': lambda: d.stream(Null()),
